@@ -36,6 +36,7 @@ def probe_spec(p, fill=0):
         'similar': p.get('similar', True),
         'features': 'sparse', 'tfeatures': 'sparse', 'ind_dtype': p.get('ind_dtype', 'uint32'),
         'n_loc': 2, 'n_tloc': 2,     # index tables have the same width in every probe
+        'ind_high': p.get('ind_high', False),
         'raw': False, 'tsv': p.get('tsv', {}), 'fill': fill + p.get('fill', 0),
         'sample_rate': 100.0,
     }
